@@ -11,7 +11,7 @@ goroutine acting), and the state reached at the end must be final.  Answer:
 `model=reject at=<event index> why=<reason>`.
 
   systems: fmap fmapch dup joinwg-chan joinwg-slice joinsel pipeline do
-  cfg    : (cfg (ocap N) (ins (CAP item…) …))            channel systems
+  cfg    : (cfg (ocap N) [(slice p…)] (ins (CAP item…) …))  channel systems; slice (joinwg): positions as channel indices
            (cfg (n N) (vals v…) (errs e…) (pairs (a b) …))   do   (e = 0: nil error)
   event  : (kind g site g2 site2 object value)            all atoms, as printed by vsched.Event.String
 
@@ -62,6 +62,9 @@ def natList : List SExp → Option (List Nat)
 structure ChanCfg where
   ocap : Nat
   ins : List (Nat × List Nat)
+  /-- joinwg only: the positions handed to the emitted function, as indices into `ins` (a channel may repeat);
+  `none` = every channel once, in order -/
+  slice : Option (List Nat) := none
 
 def parseIns : List SExp → Option (List (Nat × List Nat))
   | [] => some []
@@ -77,6 +80,11 @@ def parseChanCfg : SExp → Option ChanCfg
     let oc ← oc.toNat?
     let ins ← parseIns ins
     some { ocap := oc, ins := ins }
+  | .list [.atom "cfg", .list [.atom "ocap", .atom oc], .list (.atom "slice" :: sl), .list (.atom "ins" :: ins)] => do
+    let oc ← oc.toNat?
+    let ins ← parseIns ins
+    let sl ← natList sl
+    if sl.all (· < ins.length) then some { ocap := oc, ins := ins, slice := some sl } else none
   | _ => none
 
 def parsePairs : List SExp → Option (List (Nat × Nat))
@@ -200,7 +208,7 @@ def dupEv (c : Dup.Cfg) (s : Dup.State) (e : Ev) : R (Dup.State × Bool) := do
 abbrev Roles := List (Nat × Nat)
 
 /-- Interprets an event of the join stage.  `mid` is the name of the outer channel. -/
-def joinEv (_c : JoinWG.Cfg) (mid : String) (s : JoinWG.State) (roles : Roles) (e : Ev) :
+def joinEv (_c : JoinWG.Cfg) (mid : String) (posOf : Nat → Nat) (s : JoinWG.State) (roles : Roles) (e : Ev) :
     R (Option (JoinWG.Label × Option Nat × Roles)) := do
   let some' (l : JoinWG.Label) (obs : Option Nat) : R (Option (JoinWG.Label × Option Nat × Roles)) :=
     pure (some (l, obs, roles))
@@ -234,41 +242,48 @@ def joinEv (_c : JoinWG.Cfg) (mid : String) (s : JoinWG.State) (roles : Roles) (
     pure (some (.spGo, none, (e.g2, s.k) :: roles))
   else
     match suffixNat "in" e.ch with
-    | some i =>
+    | some j =>
+      let i := posOf j   -- channel j is listened to at the position of its first occurrence
       match e.kind with
-      | "send" => need (e.site == s!"prod{i}" && (s.ch i).cap > 0) "send-in"; some' (.pSend i) (some e.val)
+      | "send" => need (e.site == s!"prod{j}" && (s.ch i).cap > 0) "send-in"; some' (.pSend i) (some e.val)
       | "xfer" => do
-        let j ← fwd e.g2
-        need (e.site == s!"prod{i}" && j == i && (s.ch i).cap == 0) "xfer-in"
+        let k ← fwd e.g2
+        need (e.site == s!"prod{j}" && k == i && (s.ch i).cap == 0) "xfer-in"
         some' (.pSend i) (some e.val)
-      | "close" => need (e.site == s!"prod{i}") "close-in"; some' (.pClose i) none
-      | "recv" => do let j ← fwd e.g; need (j == i) "recv-in-by-wrong-forwarder"; some' (.fRecv i) (some e.val)
-      | "recvc" => do let j ← fwd e.g; need (j == i) "recvc-in-by-wrong-forwarder"; some' (.fRecv i) none
+      | "close" => need (e.site == s!"prod{j}") "close-in"; some' (.pClose i) none
+      | "recv" => do let k ← fwd e.g; need (k == i) "recv-in-by-wrong-forwarder"; some' (.fRecv i) (some e.val)
+      | "recvc" => do let k ← fwd e.g; need (k == i) "recvc-in-by-wrong-forwarder"; some' (.fRecv i) none
       | _ => pure none
     | none => pure none
 
-def joinwgEv (c : JoinWG.Cfg) (sr : JoinWG.State × Roles) (e : Ev) : R ((JoinWG.State × Roles) × Bool) := do
+/-- `tagOf p` = the channel at position p, `posOf j` = the first position of channel j, `capOfChan j` its capacity -/
+def joinwgEv (c : JoinWG.Cfg) (tagOf posOf capOfChan : Nat → Nat) (nchan : Nat) (sr : JoinWG.State × Roles) (e : Ev) :
+    R ((JoinWG.State × Roles) × Bool) := do
   let (s, roles) := sr
   let m := JoinWG.lts c
-  match ← joinEv c "outer" s roles e with
+  -- a value moved over the OUTER channel is a channel: the model speaks of positions, the log of channel tags
+  let outerStep (l : JoinWG.Label) (obs : Option Nat) (roles' : Roles) : R ((JoinWG.State × Roles) × Bool) := do
+    let eff := JoinWG.effect c s l
+    need (eff.map tagOf == obs) s!"outer-channel-carries-another-channel:model={eff.map tagOf}:impl={obs}"
+    let s' ← doStep m (JoinWG.effect c) s l eff
+    pure ((s', roles'), true)
+  match ← joinEv c "outer" posOf s roles e with
+  | some (.spNext, obs, roles') => outerStep .spNext obs roles'
   | some (l, obs, roles') =>
     let s' ← doStep m (JoinWG.effect c) s l obs
     pure ((s', roles'), true)
   | none =>
-    let st (l : JoinWG.Label) (obs : Option Nat) : R ((JoinWG.State × Roles) × Bool) := do
-      let s' ← doStep m (JoinWG.effect c) s l obs
-      pure ((s', roles), true)
     match e.kind, e.ch with
     | "make", "outer" => need (c.chanForm && e.val == c.ocap) "make-outer"; pure (sr, false)
     | "make", "join.out" => need (e.val == 0) "make-out-is-not-unbuffered"; pure (sr, false)
     | "make", ch =>
       match suffixNat "in" ch with
-      | some i => need (i < c.n && e.val == c.cap i) "make-in"; pure (sr, false)
+      | some j => need (j < nchan && e.val == capOfChan j) "make-in"; pure (sr, false)
       | none => throw s!"unknown-make:{ch}"
     | "go", _ => envGo e ["prod", "oprod", "join#0", "cons0"]; pure (sr, false)
-    | "send", "outer" => need (e.site == "oprod" && c.ocap > 0) "send-outer"; st .oSend (some e.val)
-    | "xfer", "outer" => need (e.site == "oprod" && e.site2 == "join#0" && c.ocap == 0) "xfer-outer"; st .oSend (some e.val)
-    | "close", "outer" => need (e.site == "oprod") "close-outer"; st .oClose none
+    | "send", "outer" => need (e.site == "oprod" && c.ocap > 0) "send-outer"; outerStep .oSend (some e.val) roles
+    | "xfer", "outer" => need (e.site == "oprod" && e.site2 == "join#0" && c.ocap == 0) "xfer-outer"; outerStep .oSend (some e.val) roles
+    | "close", "outer" => need (e.site == "oprod") "close-outer"; outerStep .oClose none roles
     | _, _ => throw s!"unknown-event:{e.kind}:{e.ch}"
 
 -- ---------------------------------------------------------------- joinsel
@@ -309,7 +324,7 @@ def pipelineEv (c : Pipeline.Cfg) (sr : Pipeline.State × Roles) (e : Ev) : R ((
   let st (l : Pipeline.Label) (obs : Option Nat) (roles' : Roles) : R ((Pipeline.State × Roles) × Bool) := do
     let s' ← doStep m (Pipeline.effect c) s l obs
     pure ((s', roles'), true)
-  match ← joinEv (Pipeline.jcfg c) "fmap.out" s.j roles e with
+  match ← joinEv (Pipeline.jcfg c) "fmap.out" id s.j roles e with
   | some (l, obs, roles') => st (.j l) obs roles'
   | none =>
     match e.kind, e.ch with
@@ -431,14 +446,21 @@ def runSys (sys : String) (cfg : SExp) (evs : List Ev) : String :=
         let c : Dup.Cfg := { items := items 0, cap := caps 0 }
         replay (dupEv c) (fun s => s.seen1 && s.seen2 && s.pc == .done && s.got1 == items 0 && s.got2 == items 0)
           (Dup.init c) evs
-      | "joinwg-chan" =>
-        let c : JoinWG.Cfg := { n := n, items := items, cap := caps, chanForm := true, ocap := cc.ocap }
-        replay (joinwgEv c) (fun sr => sr.1.seen && sr.1.pc == .fin &&
-          (List.range n).all (fun i => gotOf sr.1.got i == items i && sr.1.st i == .finished)) (JoinWG.init c, []) evs
-      | "joinwg-slice" =>
-        let c : JoinWG.Cfg := { n := n, items := items, cap := caps, chanForm := false, ocap := 0 }
-        replay (joinwgEv c) (fun sr => sr.1.seen && sr.1.pc == .fin &&
-          (List.range n).all (fun i => gotOf sr.1.got i == items i && sr.1.st i == .finished)) (JoinWG.init c, []) evs
+      | "joinwg-chan" | "joinwg-slice" =>
+        -- positions: the slice handed over (default: every channel once); a position whose channel occurred
+        -- earlier is `seen` and has no items of its own
+        let sl := cc.slice.getD (List.range n)
+        let np := sl.length
+        let tagOf := mkFun sl 0
+        let seen (p : Nat) : Bool := (List.range p).any (fun q => tagOf q == tagOf p)
+        let posOf (j : Nat) : Nat := (sl.findIdx? (· == j)).getD np
+        let pitems (p : Nat) : List Nat := if seen p then [] else items (tagOf p)
+        let c : JoinWG.Cfg := { n := np, items := pitems, cap := fun p => caps (tagOf p),
+                                chanForm := sys == "joinwg-chan", ocap := if sys == "joinwg-chan" then cc.ocap else 0,
+                                seen := seen }
+        replay (joinwgEv c tagOf posOf caps n) (fun sr => sr.1.seen && sr.1.pc == .fin &&
+          (List.range np).all (fun i => gotOf sr.1.got i == pitems i &&
+            (if seen i then sr.1.st i == .skipped else sr.1.st i == .finished))) (JoinWG.init c, []) evs
       | "joinsel" =>
         let c : JoinSelect.Cfg := { n := n, items := items, cap := caps }
         replay (joinselEv c) (fun s => s.seen && s.pc == .done &&
